@@ -188,11 +188,11 @@ def goAppend (base : Sl) (xs : List Val) : Sl × List Nat :=
     | .arg i _ _ => (⟨base.vals ++ xs, .grown i⟩, [i])
     | .grown i => (⟨base.vals ++ xs, .grown i⟩, [i])
 
-/-- the integer elements of args[lo:hi] (an element that is not an integer is outside the universe) -/
-def intsOf : List Obj → Option (List Val)
-  | [] => some []
-  | .int v :: rest => (intsOf rest).map (v :: ·)
-  | _ :: _ => none
+/-- the leading integer elements of a part of the argument vector (the universe has integer elements
+    only: what follows the first non-integer is not represented) -/
+def intsOf : List Obj → List Val
+  | .int v :: rest => v :: intsOf rest
+  | _ => []
 
 /-- do all slice bounds and indices of the expression lie in range?  (`false` = Go run-time fault) -/
 def okO (s : St) : OExp → Bool
@@ -252,9 +252,7 @@ def evalO (s : St) : OExp → Obj × List Nat
       let n : Int := s.args.length
       let l : Int := match lo with | some e => evalI s e | none => 0
       let h : Int := match hi with | some e => evalI s e | none => n
-      match intsOf ((s.args.drop l.toNat).take (h - l).toNat) with
-      | some xs => (.lst ⟨xs, .fresh⟩, [])
-      | none => (.other, [])
+      (.lst ⟨intsOf ((s.args.drop l.toNat).take (h - l).toNat), .fresh⟩, [])
   | .index v i =>
       match s.ov v with
       | .lst sl => (.int (sl.vals.getD (evalI s i).toNat 0), [])
@@ -278,7 +276,7 @@ def loopArgs (body : St → St) (a : Nat) : List Obj → St → St
     else loopArgs body a rest (body { s with ov := upd s.ov a x })
 
 /-- copy(dst, src) on element lists -/
-def copyVals (d o : List Val) : List Val := o.take (min d.length o.length) ++ d.drop (min d.length o.length)
+def copyVals (d o : List Val) : List Val := o.take d.length ++ d.drop o.length
 
 /-- copy(dst, src), bounds already checked -/
 def copyStep (dst : Nat) (src : OExp) (s : St) : St :=
